@@ -133,16 +133,16 @@ def _run(task, kind):
     c = CTL
     RUNS.append(kind)
     fault = c.get('fault')
-    if 'spec' in c:                       # C06: the value is given literally
-        from tcv import dvalues
-        v = dvalues.decode(c['spec'])
+    if 'value' in c:                      # C06: the value is given literally (same process)
+        v = c['value']
         if kind in ('dirData', 'continues'):
             d = task.get_data_object()
-            dvalues.write_dir(d.dir, v)
+            for name, content in v.items():
+                (d.dir / name).write_bytes(content)
             if kind == 'continues':
                 d.finished()
             return d
-        if kind in ('generated', 'generatedLazy'):
+        if kind in ('generated', 'generatedLazy') and not c.get('raw'):
             return (x for x in v)
         return v
     gen, size = c['gen'], c['size']
